@@ -24,6 +24,9 @@ def splitOn (d : Nat) : List Nat → List Comp
 def validPart (p : Comp) : Bool := !p.isEmpty && p != [dot] && p != [dot, dot] && !(p.contains 0) && !(p.contains slash)
 def validParts (ps : List Comp) : Bool := !ps.isEmpty && ps.all validPart
 
+/-- `DefaultLayout._split` additionally refuses a dot inside a part (it would be read back as a level of its own) -/
+def validPartsDefault (ps : List Comp) : Bool := validParts ps && ps.all (fun p => !(p.contains dot))
+
 /-- `'.'.join(parts)` -/
 def joinDot : List Comp → Comp
   | [] => []
